@@ -29,9 +29,12 @@ ASSUMPTIONS = ["git 2.39 porcelain v1 status; repository without remote; commit 
 
 STATUSES = ("clean", "modified-unstaged", "modified-staged", "staged+unstaged", "added", "deleted-staged", "deleted-unstaged", "renamed", "untracked")
 NAMINGS = {"plain": ("a.txt", "other.txt"), "blank": ("a b.txt", "o ther.txt"), "non-ascii": ("ä.txt", "öther.txt"),
-            "dot-slash": ("a.txt", "other.txt"), "subdir-dot": ("a.txt", "other.txt")}
+            "dot-slash": ("a.txt", "other.txt"), "subdir-dot": ("a.txt", "other.txt"),
+            # 13 pattern files reached through one glob, the unrelated file lives below the same directory
+            "many-in-dir": ("pkg/mod_00.py", "pkg/sub/other.txt")}
 # how the configuration spells the pattern file (the file itself has the canonical name)
-CONFIG_SPELLING = {"dot-slash": "./a.txt", "subdir-dot": "sub/../a.txt"}
+CONFIG_SPELLING = {"dot-slash": "./a.txt", "subdir-dot": "sub/../a.txt", "many-in-dir": "pkg/mod_*.py"}
+SIBLINGS = {"many-in-dir": [f"pkg/mod_{i:02d}.py" for i in range(1, 13)]}
 
 
 def bounds(tier, seed):
@@ -51,7 +54,14 @@ def explore(tier, seed):
             chunks.append(("non-ascii", "bumpver.toml", ps, ("clean",)))
             chunks.append(("dot-slash", "bumpver.toml", ps, ("clean", "untracked")))
             chunks.append(("subdir-dot", "setup.cfg", ps, ("clean",)))
+            if ps not in ("deleted-staged", "deleted-unstaged", "renamed"):
+                # (a file that no longer exists under a name the glob matches is not a configured file any more)
+                chunks.append(("many-in-dir", "bumpver.toml", ps, ("clean", "modified-unstaged", "untracked")))
     return pool.run_chunks(run_chunk, chunks)
+
+
+def renamed(name):
+    return os.path.join(os.path.dirname(name), "renamed-" + os.path.basename(name))
 
 
 def apply_status(name, status, initial):
@@ -78,7 +88,7 @@ def apply_status(name, status, initial):
     elif status == "deleted-unstaged":
         os.unlink(name)
     elif status == "renamed":
-        gw.git("mv", name, "renamed-" + name)
+        gw.git("mv", name, renamed(name))
     elif status == "untracked":
         pass
 
@@ -117,6 +127,8 @@ def run_case(st, base, naming, fmt, ps, us, allow, crowd=0, extra=()):
     cfg = pt.config_text(fmt, "MAJOR.MINOR.PATCH", "1.2.3", [(CONFIG_SPELLING.get(naming, pfile), ["ver={version};"])], extra="commit = true\ntag = true\npush = false"
                          if fmt.endswith(".toml") else "commit = True\ntag = True\npush = False")
     files = {fmt: cfg.encode("utf-8"), pfile: b"ver=1.2.3;\n", ufile: b"unrelated\n"}
+    for sib in SIBLINGS.get(naming, ()):
+        files[sib] = b"ver=1.2.3;\n"
     crowd_files = [f"0crowd{i:02d}.txt" for i in range(crowd)]  # sort before the pattern file
     for cf in crowd_files:
         files[cf] = b"crowd\n"
@@ -174,10 +186,10 @@ def run_case(st, base, naming, fmt, ps, us, allow, crowd=0, extra=()):
         return
     st.outcomes[f"proceeded:unrelated={us}"] += 1
     changed = gw.commit_files()
-    allowed = {fmt, pfile}
+    allowed = {fmt, pfile} | set(SIBLINGS.get(naming, ()))
     if crowd:
         us = "crowd"
-    extra = [f for f in changed if f not in allowed and f not in staged_names and ("renamed-" + f) not in staged_names]
+    extra = [f for f in changed if f not in allowed and f not in staged_names and renamed(f) not in staged_names]
     if extra:
         st.outcomes["violation"] += 1
         st.violation(f"C11:unstaged-edit-swept-into-bump-commit:{us}:{ctx}", case, {"commit_files": changed, "git_status_before": status_text})
